@@ -64,6 +64,18 @@ package vgirpc
 //@   at call writeErrorBatch after ipc.NewReader mark excWritten
 //@   ensures [local_failedturn_ret10] streamErr != nil ==> excWritten
 
+// "…preceded by that turn's logs": the logs a turn recorded on the CallContext it was handed are
+// drained after the turn and written to the data stream's writer, each with the request id,
+// before the turn's batches (repaired defect: the per-turn context was never drained, so those
+// logs were lost while the collector's own arrived).
+//
+//@ func (*Server).serveStream
+//@   property C06
+//@   pathvar turnlogs []LogMessage
+//@   at call (*CallContext).drainLogs#3 assert [thisturnscontext] arg0 == iterCtx
+//@   at call (*CallContext).drainLogs#3 setflag turnlogs result
+//@   at call writeLogBatch#2 assert [turnlogsdelivered] arg0 == outputWriter && 0 <= rangeindex + 1 && rangeindex + 1 < len(turnlogs) && arg2 == turnlogs[rangeindex+1] && arg4 == req.RequestID
+
 // building an empty batch touches nothing of the caller's (proved, given that arrow-go's
 // constructors and reference counts do not reach into this package's heap)
 //@ func makeEmptyArray
